@@ -53,30 +53,23 @@ def isCompI (p : Nat) : Item → Bool | .compI q _ => q == p | _ => false
 theorem cnt_snoc (P : Ev → Bool) (h : List Ev) (e : Ev) : cnt P (h ++ [e]) = cnt P h + (if P e then 1 else 0) := by
   simp [cnt, List.countP_append, List.countP_cons]
 
-theorem pop_spec {q : List (Nat × Nat)} {pid m : Nat} {rest : List (Nat × Nat)} (h : pop q pid = some (m, rest)) :
-    ∀ p, qcount q p = qcount rest p + (if p = pid then 1 else 0) := by
-  induction q generalizing rest with
+theorem pop_head {q : List (Nat × Nat)} {pid m : Nat} {rest : List (Nat × Nat)} (h : pop q pid = some (m, rest)) : q = (pid, m) :: rest := by
+  cases q with
   | nil => simp [pop] at h
-  | cons x xs ih =>
+  | cons x xs =>
     obtain ⟨p0, m0⟩ := x
     simp only [pop] at h
     split at h
-    · rename_i hp
-      simp only [Option.some.injEq, Prod.mk.injEq] at h
-      obtain ⟨rfl, rfl⟩ := h
-      intro p; simp only [qcount, List.countP_cons]
-      by_cases hpp : p = pid
-      · subst hpp; simp [hp]
-      · have : ¬ (p0 = p) := by rw [hp]; exact fun h => hpp h.symm
-        simp [hpp, this]
-    · rename_i hp
-      simp only [Option.map_eq_some_iff] at h
-      obtain ⟨⟨m1, r1⟩, h1, h2⟩ := h
-      simp only [Prod.mk.injEq] at h2
-      obtain ⟨rfl, rfl⟩ := h2
-      intro p
-      have := ih h1 p
-      simp only [qcount, List.countP_cons] at this ⊢
-      omega
+    · rename_i hp; simp only [Option.some.injEq, Prod.mk.injEq] at h; obtain ⟨rfl, rfl⟩ := h; rw [hp]
+    · simp at h
+
+theorem pop_spec {q : List (Nat × Nat)} {pid m : Nat} {rest : List (Nat × Nat)} (h : pop q pid = some (m, rest)) :
+    ∀ p, qcount q p = qcount rest p + (if p = pid then 1 else 0) := by
+  rw [pop_head h]
+  intro p; simp only [qcount, List.countP_cons]
+  by_cases hpp : p = pid
+  · subst hpp; simp
+  · have : ¬ (pid = p) := fun h => hpp h.symm
+    simp [hpp, this]
 
 end Mqtt5V.Proofs.TraceIn
